@@ -254,6 +254,7 @@ func c07TxFrame(c *core.Ctx) {
 
 func c07TxMem(c *core.Ctx) {
 	const rule = "TX-mem"
+	txWrapperRule(c, rule)
 	aot := c.Named("tree", "AppendOnlyTree")
 	addLeaf := c.MustFn(rule, "tree", "AppendOnlyTree", "AddLeaf")
 	ctor := c.MustFn(rule, "tree", "", "NewAppendOnlyTree")
@@ -616,7 +617,7 @@ func init() {
 	register(&Property{
 		ID:          "C07",
 		Level:       "other",
-		Explanation: "Decides the structural necessary conditions of all-or-nothing block processing on every path of the code (not the behaviour under concrete faults): TX-pair — in every ProcessBlock/Reorg of the three stores (and every other function of the store, tree and db packages that begins a transaction) each path from the successful begin to a function exit commits, rolls back, or has a deferred rollback registered whose flag is cleared only after Commit()==nil; TX-through — every SQL write (Exec, meddler.Insert/Update/Save) in the transaction scope and its callee cone (static callees plus repository implementations of interface methods) uses the transaction, never the *sql.DB; TX-mem — every in-memory frontier write of AppendOnlyTree (lastIndex, lastLeftCache, in AddLeaf and initCache) is dominated by the registration on the same tx of a rollback callback that resets lastIndex to the constructor's not-initialised sentinel, and the index-mismatch test always rebuilds before a root is stored; TX-frame — the set of fields of the long-lived store objects written after construction is computed and must be within the accounted table; C07-halt-or-retry — ProcessBlock returns ErrInconsistentState (on which the driver stops retrying) only when the processor is halted or has just latched halted=true, and the sentinel error is produced nowhere below ProcessBlock; C07-order — the block row is the first write and nothing is written after Commit. The retry-the-same-block half is C05-retry. Added after round 7: C07-schema (column affinity; references not deferred to COMMIT), C07-clear (halt lifted only after the reorg committed, shared with C14).",
+		Explanation: "Decides the structural necessary conditions of all-or-nothing block processing on every path of the code (not the behaviour under concrete faults): TX-pair — in every ProcessBlock/Reorg of the three stores (and every other function of the store, tree and db packages that begins a transaction) each path from the successful begin to a function exit commits, rolls back, or has a deferred rollback registered whose flag is cleared only after Commit()==nil; TX-through — every SQL write (Exec, meddler.Insert/Update/Save) in the transaction scope and its callee cone (static callees plus repository implementations of interface methods) uses the transaction, never the *sql.DB; TX-mem — every in-memory frontier write of AppendOnlyTree (lastIndex, lastLeftCache, in AddLeaf and initCache) is dominated by the registration on the same tx of a rollback callback that resets lastIndex to the constructor's not-initialised sentinel, and the index-mismatch test always rebuilds before a root is stored; TX-frame — the set of fields of the long-lived store objects written after construction is computed and must be within the accounted table; C07-halt-or-retry — ProcessBlock returns ErrInconsistentState (on which the driver stops retrying) only when the processor is halted or has just latched halted=true, and the sentinel error is produced nowhere below ProcessBlock; C07-order — the block row is the first write and nothing is written after Commit. The retry-the-same-block half is C05-retry. Added after round 7: C07-schema (column affinity; references not deferred to COMMIT), C07-clear (halt lifted only after the reorg committed, shared with C14). Added after round 9: TX-mem also decides db.Tx itself (Commit reports a failed commit; registered callbacks are called from the list as registered).",
 		Assumptions: []string{
 			"the SQL engine's transactions are atomic and durable (trusted)",
 			"if Rollback itself fails the callbacks do not run; the next AddLeaf then relies on the index comparison only (documented in DESIGN.md C07)",
@@ -631,7 +632,7 @@ func init() {
 			}, Text: "[SCHEMA-TYPES] integer columns have INTEGER affinity (numeric ORDER BY), big.Int text columns have TEXT affinity, references are not deferred to COMMIT"},
 			{ID: "C07-clear", Floor: 7, Run: shared("C07-clear", c14Clear), Text: "(shared with C14-clear) the halt is lifted only after the reorg transaction committed"},
 			{ID: "C07-stop", Floor: 2, Run: c07Stop, Text: "[DOM] (shared with C14-stop) a halted processor records nothing: ProcessBlock passes the !isHalted() edge before any data access"},
-			{ID: "TX-mem", Floor: 6, Run: c07TxMem, Text: "[TX] frontier writes are dominated by AddRollbackCallback(invalidate to sentinel); sentinel < -1; mismatch rebuilds"},
+			{ID: "TX-mem", Floor: 9, Run: c07TxMem, Text: "[TX] frontier writes are dominated by AddRollbackCallback(invalidate to sentinel); sentinel < -1; mismatch rebuilds"},
 			{ID: "TX-frame", Floor: 9, Run: c07TxFrame, Text: "[WHO] computed set of post-construction field writes of the long-lived store objects is within the accounted table"},
 			{ID: "C07-halt-or-retry", Floor: 3, Run: c07HaltOrRetry, Text: "[DOM] ErrInconsistentState leaves ProcessBlock only on the halted edge or after latching halted=true"},
 			{ID: "C07-order", Floor: 6, Run: c07Order, Text: "[DOM] INSERT INTO block first, no SQL write after Commit"},
